@@ -98,7 +98,7 @@ FAMILIES = {
     "C42": ["catchsched"],
     "C09": ["guard", "op"],
     "C30": ["tramp"],
-    "C35": ["periodic", "catchsched", "srcwire"],
+    "C35": ["periodic", "catchsched", "srcwire", "evloop"],
     "C37": ["srcfac", "srcwire"],
     "C10": ["seqcomp", "op"],
     "C24": ["mcast"],
